@@ -126,8 +126,8 @@ def run(tier, seed):
     hists = t_d.printed
     if len(hists) < 10000:
         core.die("only %d histories" % len(hists))
-    sim = core.tlc_simulate("CpdefDispatch", "CpdefDispatch_sim", seconds=12 if tier == "quick" else 90, depth=15, seed=seed,
-                            max_records=2000 if tier == "quick" else 30000, workers=4)
+    sim = core.tlc_simulate("CpdefDispatch", "CpdefDispatch_sim", seconds=240 if tier == "quick" else 900, depth=15, seed=seed,
+                            max_records=1000 if tier == "quick" else 30000, workers=4)
     if not sim.ok:
         sys.stderr.write(sim.out[-2000:])
         core.die("simulation: %s" % sim.violation)
